@@ -1,6 +1,7 @@
 SPECIFICATION MCSpec
 CONSTANTS Caps = {1, 2, 3, 4}
-          Char = {97, 98}
+          Chars0 = {97, 98}
+          NulUpTo = 3
           WildArgs = FALSE
           BigCodes = {}
           WholeLen = 3
